@@ -1203,6 +1203,15 @@ func packCase(sp *spec) {
 		pr2 := project(rec2, d2, err2, t2, time.Now())
 		run.Case(run.NewID(), modelLine(-1, entries2), pr2.obs)
 		run.Count("history_second_call")
+		if err2 == nil && (sp.Target == "memory" || sp.Target == "oci") {
+			// idempotence on content-addressed stores: nothing is stored anew by the repeat
+			for _, e := range rec2.events {
+				if e.kind == "P" && e.err == nil {
+					fail("repeat-call-pushed", "repeating the call stored %s %s again", e.desc.MediaType, e.desc.Digest)
+				}
+			}
+			run.Count("idempotence_checked")
+		}
 		if err2 != nil && sp.Target == "file" && errors.Is(err2, file.ErrDuplicateName) &&
 			(sp.Ann[ocispec.AnnotationTitle] != "" || sp.ConfigAnn[ocispec.AnnotationTitle] != "") {
 			// the file store refuses to write a named file twice (not ErrAlreadyExists): repeating
